@@ -142,7 +142,8 @@ fn run_meta(prop: &str, tier: &str, rule: &str, extra_bound: usize, which: u8) -
         let name = format!("{}/{}", if which == 12 { "shortcuts" } else { "spellings" }, sp.name);
         // the every-name spaces are large: one deviation less for the (wider) respelling product in the quick tier
         let bound = if tier == "quick" && ((which == 13 && sp.name.starts_with("names-")) || (which == 12 && (sp.name == "faulty" || sp.name == "names-parent"))) { sp.bound.map(|b| b.saturating_sub(1)) } else { sp.bound };
-        let bound2 = if tier == "quick" { Some(extra_bound) } else { Some(extra_bound + 1) };
+        // (the thorough tier deepens the corpus, not the rewrite product: mid corpus x rewrite-dev(3) did not finish in 25 min)
+        let bound2 = Some(extra_bound);
         let st = explore2(
             |ctx| if which == 12 { gen_c12(ctx, &*sp.gen) } else { gen_c13(ctx, &*sp.gen) },
             bound,
